@@ -105,6 +105,7 @@ impl Vm {
     }
 
     pub fn prepare_eval(&mut self, cell: &Cell) -> Result<(), Error> {
+        self.last_stacktrace = None;
         let lambda = self.compile_runnable(cell)?;
         trace!("entry: \n{}", self.decompile_text(&lambda));
         let lambda = self.heap.put(lambda);
@@ -121,6 +122,7 @@ impl Vm {
     /// # Arguments
     /// `text` - The text to eval
     pub fn eval_text<'a>(&mut self, text: &'a str) -> Result<(Cell, Option<&'a str>), Error> {
+        self.last_stacktrace = None;
         let (cell, remaining_text) = parse::parse_text(text)?;
         self.prepare_eval(&cell)?;
         Ok((self.run()?, remaining_text))
